@@ -121,6 +121,9 @@ def sb(e):
 
 class SInt:
     def __init__(self, e): self.e = e
+    def __pysym_isinstance__(self, types):
+        types = types if isinstance(types, tuple) else (types,)
+        return any(isinstance(t, type) and issubclass(int, t) and t is not bool for t in types)
     def _bin(self, o, f, r=False):
         a, b = (lift(o), self.e) if r else (self.e, lift(o))
         return si(f(a, b))
@@ -181,6 +184,9 @@ class SStr:
         return "".join(chr(c) for c in self.chars)
     def __len__(self): return len(self.chars)
     def __bool__(self): return len(self.chars) > 0
+    def __pysym_isinstance__(self, types):
+        types = types if isinstance(types, tuple) else (types,)
+        return any(isinstance(t, type) and issubclass(str, t) for t in types)
     def __add__(self, o): return mk(self.chars + SStr.of(o).chars)
     def __radd__(self, o): return mk(SStr.of(o).chars + self.chars)
     def __getitem__(self, k):
